@@ -4,6 +4,7 @@ import re
 
 from . import lib_c19 as Q
 from .engine import comparison_of, normalise_le
+from .core import AnchorLost as core_AnchorLost
 from .lib import callers, root_fn
 
 LEVEL = "other"
@@ -57,6 +58,41 @@ def _only(term, allow):
     return Q.callees_outside(term, allow)
 
 
+def _leafname(p):
+    return p[2] or "%s%d" % (p[0], p[1])
+
+
+def _roles(ctx, R, f, meta_ty):
+    """Parameters of a to_api_endpoint_fn by *type* (robust to renaming / reordering):
+    {"self","dropshot","name","kind","doc"} -> ("param", i, debug name)."""
+    key = "c19:roles:" + f.id
+    if key in ctx.extra:
+        return ctx.extra[key]
+    out = {}
+    for i in range(1, f.argc + 1):
+        ty = f.local_ty(i)
+        role = None
+        if meta_ty in ty:
+            role = "self"
+        elif "TokenStream" in ty:
+            role = "dropshot"
+        elif "ApiEndpointKind" in ty:
+            role = "kind"
+        elif "ExtractedDoc" in ty:
+            role = "doc"
+        elif re.search(r"\bstr$", ty):
+            role = "name"
+        if role is None or role in out:
+            ctx.lost(R, "parameter roles of %s (parameter %d: %s)" % (f.id, i, ty))
+            raise core_AnchorLost(f.id)
+        out[role] = ("param", i, f.local_name(i))
+    if set(out) != {"self", "dropshot", "name", "kind", "doc"}:
+        ctx.lost(R, "parameter roles of %s: %s" % (f.id, sorted(out)))
+        raise core_AnchorLost(f.id)
+    ctx.extra[key] = out
+    return out
+
+
 def _self_leaves(term, selfname="self"):
     return set(l for l in Q.leaves(term) if l == selfname or l.startswith(selfname + "."))
 
@@ -94,12 +130,35 @@ def _str_lits(fn):
     return out
 
 
-def _is_forwarder(q, f, t):
+def _role_args(ctx, R, q, f, t):
+    """Arguments of a call to one of the two to_api_endpoint_fn, keyed by the callee's parameter roles."""
+    callee = ctx.ep.one("^" + re.escape(t.get("callee") or "?") + "$")
+    roles = _roles(ctx, R, callee, "ValidatedChannelMetadata" if re.search(CH_PRODUCER, callee.id) else "ValidatedEndpointMetadata")
     fr = Q.Frame(f)
-    args = [q.ev_op(fr, a) for a in t["args"]]
-    rest_ok = all(a[0] == "param" and a[1] == i + 1 for i, a in enumerate(args) if i >= 1)
-    p0 = Q.path_of(args[0])
-    return rest_ok and p0 is not None and p0[0] == "param" and p0[1] == 1 and len(p0[3]) == 1, args
+    return {r: q.ev_op(fr, t["args"][p[1] - 1]) for r, p in roles.items()}
+
+
+def _is_forwarder(ctx, R, q, f, t):
+    """f is itself a to_api_endpoint_fn that hands its own dropshot/name/kind/doc parameters on."""
+    a = _role_args(ctx, R, q, f, t)
+    if not re.search(r"::to_api_endpoint_fn$", f.id):
+        return False, a
+    own = _roles(ctx, R, f, "ValidatedChannelMetadata" if re.search(CH_PRODUCER, f.id) else "ValidatedEndpointMetadata")
+    rest_ok = all(a[r] == own[r] for r in ("dropshot", "name", "kind", "doc"))
+    p0 = Q.path_of(a["self"])
+    return rest_ok and p0 is not None and (p0[0], p0[1]) == ("param", own["self"][1]) and len(p0[3]) == 1, a
+
+
+def _unwrap_opt(t):
+    """Payload of an Option value: `if let Some(x)`, `.unwrap()`, `.expect(..)`."""
+    if t[0] == "some":
+        return t[1]
+    if t[0] == "call" and re.search(r"Option::<T>::(unwrap|expect|unwrap_unchecked)$", t[1]) and t[2]:
+        return t[2][0]
+    return None
+
+
+NAME_OPS = PLUMB + FMT + [r"string::ToString::to_string$", r"alloc::fmt::format$"]
 
 
 def r1_one_producer(ctx):
@@ -136,11 +195,13 @@ def r1_one_producer(ctx):
     # ---- (b) callers
     leaf = []
     for f, bb, t in callers(ep, PRODUCER) + callers(ep, CH_PRODUCER):
-        fwd, args = _is_forwarder(q0, f, t)
+        fwd, args = _is_forwarder(ctx, R, q0, f, t)
         if fwd:
-            ok = f is chprod and Q.path_of(args[0])[3] == ("inner",) and _field_names(ep, "metadata::ValidatedChannelMetadata") == ["inner"]
+            inner = Q.path_of(args["self"])[3]
+            vfields = ep.adt_fields("metadata::ValidatedChannelMetadata") or []
+            ok = f is chprod and [x["name"] for x in vfields] == list(inner) and VMETA in vfields[0]["ty"]
             ctx.check(R, "forwarder:%s" % f.id, ok, "passes dropshot/endpoint_name/kind/doc through unchanged with metadata = self.%s; ValidatedChannelMetadata fields: %s"
-                      % (".".join(Q.path_of(args[0])[3]), _field_names(ep, "metadata::ValidatedChannelMetadata")), (f, bb))
+                      % (".".join(inner), [x["name"] for x in vfields]), (f, bb))
         else:
             leaf.append((f, bb, t, args))
     ctx.check(R, "four-declaration-forms", len(leaf) == 4 and len(set(f.id for f, _, _, _ in leaf)) == 4,
@@ -149,26 +210,26 @@ def r1_one_producer(ctx):
     for f, bb, t, args in leaf:
         is_ch = bool(re.search(CH_PRODUCER, t.get("callee") or ""))
         key = "caller:%s" % f.id
-        meta, _dropshot, name, kind, doc = args
-        nm = Q.strip_plumb(name)
+        meta, name, kind, doc = args["self"], args["name"], args["kind"], args["doc"]
+        # the name is the text of the item's identifier (to_string / format only)
         item = None
-        if nm[0] == "call" and re.search(r"ToString::to_string$", nm[1]) and nm[2]:
-            p = Q.path_of(Q.strip_plumb(nm[2][0]))
-            if p is not None and p[3][-2:] == ("sig", "ident"):
-                item = (p[0], p[1], p[3][:-2])
+        nl = [x for x in Q.walk(name, guards=False) if Q.path_of(x) is not None and Q.path_of(x)[3][-2:] == ("sig", "ident")]
+        if len(Q.leaves(name)) == 1 and nl and not _only(name, NAME_OPS) and any(re.search(r"to_string$|fmt::format$", c) for c in Q.callees(name)):
+            p = Q.path_of(nl[0])
+            item = (p[0], p[1], p[3][:-2])
         ctx.check(R, key + ":name-is-item-ident", item is not None, "endpoint_name = %s" % cap(Q.show(name)), (f, bb))
-        d = Q.strip_plumb(doc)
-        dp = None
-        if d[0] == "call" and re.search(r"doc::ExtractedDoc::from_attrs$", d[1]) and d[2]:
-            dp = Q.path_of(Q.strip_plumb(d[2][0]))
-        ctx.check(R, key + ":doc-from-same-item", item is not None and dp is not None and (dp[0], dp[1], dp[3]) == (item[0], item[1], item[2] + ("attrs",)),
+        dl = [x for x in Q.walk(doc, guards=False) if Q.path_of(x) is not None and Q.path_of(x)[3][-1:] == ("attrs",)]
+        dp = Q.path_of(dl[0]) if len(Q.leaves(doc)) == 1 and dl else None
+        dok = dp is not None and not _only(doc, PLUMB + [r"^doc::ExtractedDoc::from_attrs$"]) and any(re.search(r"^doc::ExtractedDoc::from_attrs$", c) for c in Q.callees(doc))
+        ctx.check(R, key + ":doc-from-same-item", item is not None and dok and (dp[0], dp[1], dp[3]) == (item[0], item[1], item[2] + ("attrs",)),
                   "doc = %s ; name = %s" % (cap(Q.show(doc)), cap(Q.show(name))), (f, bb))
         # metadata
         mp = Q.path_of(meta)
         vre = r"metadata::ChannelMetadata::validate$" if is_ch else r"metadata::EndpointMetadata::validate$"
-        if meta[0] == "some" and meta[1][0] == "call" and re.search(vre, meta[1][1]):
+        inner = _unwrap_opt(meta)
+        if inner is not None and inner[0] == "call" and re.search(vre, inner[1]):
             forms.add(("function", is_ch))
-            v = meta[1]
+            v = inner
             ok = len(v[2]) >= 4 and Q.nosite(v[2][1]) == Q.nosite(name) and Q.path_of(v[2][0]) is not None and Q.path_of(v[2][0])[0] == "param" \
                 and v[2][3][0] == "agg" and v[2][3][2] == "Function"
             ctx.check(R, key + ":metadata-validated-for-this-item", ok, "metadata = %s" % cap(Q.show(meta)), (f, bb))
@@ -400,7 +461,36 @@ def _producer_template(ctx, R):
     if key not in ctx.extra:
         q = _q(ctx, "ep", inline=True)
         ctx.extra[key] = q.template(prod, 0)
-    return prod, ctx.extra[key]
+    P = _roles(ctx, R, prod, "ValidatedEndpointMetadata")
+    return prod, ctx.extra[key], P
+
+
+def _ctor_roles(ctx, q, dfn):
+    """What each parameter of an ApiEndpoint constructor *means*, read off the aggregate it builds:
+    the parameter that becomes field operation_id is the operation id, ... (robust to renaming)."""
+    aggs = list(dfn.aggregates(r"^api_description::ApiEndpoint$"))
+    if len(aggs) != 1:
+        return None
+    bb, i, st = aggs[0]
+    fr = Q.Frame(dfn)
+    flows = {}
+    for n, o in zip(st["rv"]["fields"], st["rv"]["ops"]):
+        for l in Q.leaves(q.ev_op(fr, o)):
+            flows.setdefault(l, set()).add(n)
+    out = []
+    for pi in range(1, dfn.argc + 1):
+        F = flows.get(_leafname(("param", pi, dfn.local_name(pi))), set())
+        if "operation_id" in F:
+            out.append("operation_id")
+        elif F == {"handler"}:
+            out.append("handler")
+        elif "body_content_type" in F:
+            out.append("content_type")
+        elif len(F) == 1 and list(F)[0] in ("method", "path", "versions"):
+            out.append(list(F)[0])
+        else:
+            out.append("?%s" % sorted(F))
+    return out
 
 
 def _default_form(x, primary, default):
@@ -422,13 +512,13 @@ def _default_form(x, primary, default):
     return False
 
 
-def _ctor_arms(T):
+def _ctor_arms(T, P):
     """The alternative over `kind` at the head of the producer's template: {variant: tokens}."""
     if not T or T[0][0] != "alt":
         return None
     arms = {}
     for g, toks in T[0][1]:
-        ks = [gv for gt, gv in g if Q.path_of(gt) is not None and Q.path_of(gt)[2] == "kind" and not Q.path_of(gt)[3]]
+        ks = [gv for gt, gv in g if gt == P["kind"]]
         if len(ks) != 1 or len(g) != 1:
             return None
         arms[ks[0]] = toks
@@ -438,10 +528,12 @@ def _ctor_arms(T):
 def r2b_emission(ctx):
     R = ctx.rule("C19.R2b", "the emitted constructor call passes, for each parameter name of dropshot's ApiEndpoint::new / ::new_for_types, the matching validated-metadata field, identically in the real "
                  "and stub arms; the builder calls .summary/.description/.tag/.visible(false)/.deprecated(true)/.request_body_max_bytes are appended exactly under their field's condition and nothing else is", floor=30)
-    prod, T = _producer_template(ctx, R)
+    prod, T, P = _producer_template(ctx, R)
     ds = ctx.ds
+    S, N, DOC = _leafname(P["self"]), _leafname(P["name"]), _leafname(P["doc"])
+    qd = _q(ctx, "ds", inline=False)
     vfields = _field_names(ctx.ep, VMETA) or []
-    arms = _ctor_arms(T)
+    arms = _ctor_arms(T, P)
     if arms is None or set(arms) != {"Regular", "Stub"}:
         ctx.check(R, "constructor-chosen-by-kind", False, "the returned stream does not start with one constructor per ApiEndpointKind variant: %s" % cap(Q.show_toks(T[:1])), prod)
         return
@@ -452,9 +544,12 @@ def r2b_emission(ctx):
     for arm, (ctor, dfn) in sigs.items():
         toks = arms[arm]
         s = Q.sig(toks)
-        params = [dfn.local_name(i) for i in range(1, dfn.argc + 1)]
+        params = _ctor_roles(ctx, qd, dfn)
+        if params is None:
+            ctx.lost(R, "the ApiEndpoint aggregate in %s" % dfn.id)
+            continue
         head = ["<>", "::", "ApiEndpoint", "::", ctor]
-        okh = s[:5] == head and toks[0][1] == ("param", 2, "dropshot") and s[-1] == "(" and toks[-1][0] == "grp"
+        okh = s[:5] == head and toks[0][1] == P["dropshot"] and s[-1] == "(" and toks[-1][0] == "grp"
         if arm == "Regular":
             okh = okh and len(s) == 6
         else:
@@ -465,8 +560,8 @@ def r2b_emission(ctx):
             if okg:
                 inner = gen[2][2]
                 okg = Q.sig(inner) == ["#()*"] and Q.sig(inner[0][1]) == ["<>", ","] and \
-                    Q.strip_plumb(inner[0][1][0][1]) == ("item", ("field", ("as", ("param", 4, "kind"), "Stub"), "extractor_types")) and \
-                    gen[4][1] == ("field", ("as", ("param", 4, "kind"), "Stub"), "ret_ty")
+                    Q.strip_plumb(inner[0][1][0][1]) == ("item", ("field", ("as", P["kind"], "Stub"), "extractor_types")) and \
+                    gen[4][1] == ("field", ("as", P["kind"], "Stub"), "ret_ty")
             ctx.check(R, "Stub:type-arguments", okg, "generic arguments: %s" % cap(Q.show_toks(gen)), prod)
         ctx.check(R, "%s:constructor-path" % arm, okh, "emits %s" % cap(Q.show_toks(toks[:6])), prod)
         if not (toks and toks[-1][0] == "grp"):
@@ -475,7 +570,7 @@ def r2b_emission(ctx):
         ctx.check(R, "%s:arity" % arm, len(args) == len(params), "emitted %d arguments for %s(%s)" % (len(args), ctor, ", ".join(str(p) for p in params)), prod)
         for pname, a in zip(params, args):
             per_param.setdefault(pname, {})[arm] = a
-            ok, why = _arg_ok(pname, a)
+            ok, why = _arg_ok(pname, a, P)
             ctx.check(R, "%s:arg:%s" % (arm, pname), ok, "%s <- %s%s" % (pname, cap(Q.show_toks(a)), ("  [%s]" % why) if why else ""), prod)
     for pname, d in sorted(per_param.items()):
         if len(d) == 2:
@@ -484,12 +579,12 @@ def r2b_emission(ctx):
     chunks, stray = _builder_chunks(T[1:])
     ctx.check(R, "builders:no-stray-tokens", not stray, "tokens after the constructor that are not `.name(args)` builder calls: %s" % cap(Q.show_toks(stray)) if stray else "only builder calls follow the constructor", prod)
     expect = {
-        "summary": ("Some", "doc.summary", "hole"),
-        "description": ("Some", "doc.description", "hole"),
-        "tag": ("rep", "self.tags", "hole"),
-        "visible": (True, "self.unpublished", "false"),
-        "deprecated": (True, "self.deprecated", "true"),
-        "request_body_max_bytes": ("Some", "self.request_body_max_bytes", "hole"),
+        "summary": ("Some", DOC + ".summary", "hole"),
+        "description": ("Some", DOC + ".description", "hole"),
+        "tag": ("rep", S + ".tags", "hole"),
+        "visible": (True, S + ".unpublished", "false"),
+        "deprecated": (True, S + ".deprecated", "true"),
+        "request_body_max_bytes": ("Some", S + ".request_body_max_bytes", "hole"),
     }
     seen = {}
     for c in chunks:
@@ -521,13 +616,14 @@ def r2b_emission(ctx):
     used = set()
     for x in Q.walk_toks(T):
         p = Q.path_of(x)
-        if p is not None and p[2] == "self" and p[3]:
+        if p is not None and (p[0], p[1]) == P["self"][:2] and p[3]:
             used.add(p[3][0])
     ctx.check(R, "all-validated-fields-consumed", set(vfields) <= used, "ValidatedEndpointMetadata fields never read by the producer: %s" % sorted(set(vfields) - used), prod)
 
 
-def _arg_ok(pname, a):
+def _arg_ok(pname, a, P):
     s = Q.sig(a)
+    S, N = _leafname(P["self"]), _leafname(P["name"])
     if pname == "operation_id":
         if s[1:] != [".", "to_string", "("] or s[0] not in ("<>", "{alt}") or a[3][2]:
             return False, "expected ⟨id⟩.to_string()"
@@ -536,11 +632,11 @@ def _arg_ok(pname, a):
             if not all(len(toks) == 1 and toks[0][0] == "hole" for g, toks in a[0][1]):
                 return False, "expected one interpolated value per arm"
             term = ("alt", tuple((g, toks[0][1]) for g, toks in a[0][1]))
-        return _default_form(term, "self.operation_id", "endpoint_name"), "explicit operation_id, else the function name"
+        return _default_form(term, S + ".operation_id", N), "explicit operation_id, else the function name"
     if pname == "handler":
-        return s == ["<>"] and a[0][1] == ("field", ("as", ("param", 4, "kind"), "Regular"), 0), "the Regular kind's function path"
+        return s == ["<>"] and a[0][1] == ("field", ("as", P["kind"], "Regular"), 0), "the Regular kind's function path"
     if pname == "method":
-        if s != ["<>", "::", "Method", "::", "<>"] or a[0][1] != ("param", 2, "dropshot"):
+        if s != ["<>", "::", "Method", "::", "<>"] or a[0][1] != P["dropshot"]:
             return False, "expected ⟨dropshot⟩::Method::⟨ident⟩"
         m = a[4][1]
         bad = _only(m, PLUMB + FMT + [r"^metadata::MethodType::as_str$"])
@@ -549,15 +645,15 @@ def _arg_ok(pname, a):
             if x[0] == "lit" and '"bytes"' in x[1]:
                 import json as _j
                 txt += [b for b in _j.loads(x[1]).get("bytes", []) if 0x20 <= b < 0x7f]
-        ok = Q.leaves(m) == {"self.method"} and not bad and any(re.search(r"MethodType::as_str$", c) for c in Q.callees(m)) and any(re.search(r"mk_ident$", c) for c in Q.callees(m)) and not txt
+        ok = Q.leaves(m) == {S + ".method"} and not bad and any(re.search(r"MethodType::as_str$", c) for c in Q.callees(m)) and any(re.search(r"mk_ident$", c) for c in Q.callees(m)) and not txt
         return ok, "identifier made from MethodType::as_str(self.method) only%s" % ((" ; unexpected: %s" % bad) if bad else "")
     if pname in ("content_type", "path"):
-        leaf = "self." + pname
+        leaf = S + "." + pname
         return s == ["<>"] and Q.leaves(a[0][1]) == {leaf} and not _only(a[0][1], PLUMB), leaf
     if pname == "versions":
         if s != ["{alt}"]:
             return False, "expected one alternative per VersionRange kind"
-        ok = all(len(g) == 1 and Q.leaves(g[0][0]) == {"self.versions"} for g, _ in a[0][1])
+        ok = all(len(g) == 1 and Q.leaves(g[0][0]) == {S + ".versions"} for g, _ in a[0][1])
         return ok, "chosen by self.versions (contents: C19.R7)"
     return False, "parameter not known to the rule"
 
@@ -650,14 +746,17 @@ def r3_builders(ctx):
 
 
 # =========================================================================== R4
-def _byname(x):
-    """Term with parameters identified by name (the two constructors number them differently) and no call sites."""
+def _byname(x, roles=None):
+    """Term with parameters identified by what they mean (the two constructors number and may name them
+    differently) and no call sites."""
     if isinstance(x, tuple):
         if len(x) == 3 and x[0] == "param":
-            return ("param", x[2])
+            return ("param", roles[x[1] - 1] if roles and 1 <= x[1] <= len(roles) else x[2])
         if len(x) == 5 and x[0] == "call":
             x = x[:4]
-        return tuple(_byname(y) for y in x)
+            if re.search(r"(Result::<T, E>|Option::<T>)::(expect|unwrap)$", x[1]) and x[2]:
+                x = ("call", "unwrap", x[2][:1], None)  # the panic message is not part of the value
+        return tuple(_byname(y, roles) for y in x)
     return x
 
 
@@ -669,6 +768,7 @@ def r4_new_vs_stub(ctx):
     fb = ctx.need_fn(ds, R, r"^api_description::ApiEndpoint::<api_description::StubContext>::new_for_types$")
     vals = {}
     gen = {}
+    roles = {"new": _ctor_roles(ctx, q, fa), "new_for_types": _ctor_roles(ctx, q, fb)}
     for tag, f in (("new", fa), ("new_for_types", fb)):
         aggs = list(f.aggregates(r"^api_description::ApiEndpoint$"))
         if len(aggs) != 1:
@@ -692,29 +792,33 @@ def r4_new_vs_stub(ctx):
         if n == "handler":
             continue
         a, b = vals["new"].get(n), vals["new_for_types"].get(n)
-        same = a is not None and b is not None and _byname(a) == _byname(b)
+        same = a is not None and b is not None and _byname(a, roles["new"]) == _byname(b, roles["new_for_types"])
+        ra = _byname(a, roles["new"]) if a is not None else None
+        role_leaves = set(x[1] for x in Q.walk(ra) if len(x) == 2 and x[0] == "param") if ra is not None else set()
         ok = same
         extra = ""
         if n in defaults:
             ok = ok and defaults[n](a)
             extra = " (declared default)"
         if n in passthrough:
-            ok = ok and a[0] == "param" and a[2] == passthrough[n]
+            ok = ok and a[0] == "param" and ra == ("param", passthrough[n])
             extra = " (the argument, unmodified)"
         if n == "path":
-            ok = ok and Q.leaves(a) == {"path"} and not _only(a, PLUMB + [r"ToString::to_string$"])
+            ok = ok and role_leaves == {"path"} and len(Q.leaves(a)) == 1 and not _only(a, PLUMB + [r"ToString::to_string$"])
         if n == "body_content_type":
-            ok = ok and Q.leaves(a) == {"content_type"} and any(re.search(r"from_mime_type$", c) for c in Q.callees(a)) and not _only(a, PLUMB + [r"from_mime_type$", r"Result::<T, E>::(expect|unwrap)$"])
+            ok = ok and role_leaves == {"content_type"} and len(Q.leaves(a)) == 1 and any(re.search(r"from_mime_type$", c) for c in Q.callees(a)) and not _only(a, PLUMB + [r"from_mime_type$", r"Result::<T, E>::(expect|unwrap)$"])
         if n in ("parameters", "extension_mode"):
-            ok = ok and Q.leaves(a) == {"content_type"} and any(re.search(r"RequestExtractor::metadata$", c) for c in Q.callees(a)) and a[0] == "field" and a[2] == n
+            ok = ok and role_leaves == {"content_type"} and len(Q.leaves(a)) == 1 and any(re.search(r"RequestExtractor::metadata$", c) for c in Q.callees(a)) and a[0] == "field" and a[2] == n
         ctx.check(R, "field:%s" % n, ok, "new: %s | new_for_types: %s%s" % (cap(Q.show(a), 110) if a else None, cap(Q.show(b), 110) if b else None, extra), fa)
     # the type-level sources: FuncParams in both; response/error from the handler's result type
     ga, gb = gen["new"], gen["new_for_types"]
-    md = ga.get("RequestExtractor::metadata") == gb.get("RequestExtractor::metadata") and any("FuncParams" in g for g in ga.get("RequestExtractor::metadata", []))
+    plain = lambda gs: len(gs) == 1 and re.match(r"^\w+$", gs[0]) is not None   # a bare type parameter
+    proj = lambda gs, assoc: len(gs) == 1 and "Projection" in gs[0] and gs[0].count(assoc) >= 1
+    md = plain(ga.get("RequestExtractor::metadata", [])) and plain(gb.get("RequestExtractor::metadata", []))
     ctx.check(R, "types:parameters-from-FuncParams", md, "metadata::<%s> vs metadata::<%s>" % (ga.get("RequestExtractor::metadata"), gb.get("RequestExtractor::metadata")), fb)
-    rs = any("ResponseType" in g for g in ga.get("HttpResponse::response_metadata", [])) and any("ResultType" in g and "Response" in g for g in gb.get("HttpResponse::response_metadata", []))
+    rs = plain(ga.get("HttpResponse::response_metadata", [])) and proj(gb.get("HttpResponse::response_metadata", []), "HttpResultType::Response")
     ctx.check(R, "types:response-from-result-type", rs, "response_metadata::<%s> vs ::<%s>" % (ga.get("HttpResponse::response_metadata"), gb.get("HttpResponse::response_metadata")), fb)
-    er = any("HandlerType" in g and "Error" in g for g in ga.get("ApiEndpointErrorResponse::for_type", [])) and any("ResultType" in g and "Error" in g for g in gb.get("ApiEndpointErrorResponse::for_type", []))
+    er = proj(ga.get("ApiEndpointErrorResponse::for_type", []), "HttpHandlerFunc::Error") and proj(gb.get("ApiEndpointErrorResponse::for_type", []), "HttpResultType::Error")
     ctx.check(R, "types:error-from-result-type", er, "for_type::<%s> vs ::<%s>" % (ga.get("ApiEndpointErrorResponse::for_type"), gb.get("ApiEndpointErrorResponse::for_type")), fb)
 
 
@@ -857,14 +961,26 @@ def r6_document(ctx):
     ctx.check(R, "operation-built-only-when-visible", vis0, "Operation::default() is reached only through the endpoint.visible == true edge: %s" % vis0, (go, obb))
     # the operation that was filled is the one stored in the path item's method slot
     stored = False
-    detail = "no Option::replace/insert(slot, operation) found"
+    detail = "no Option::replace/insert(slot, operation) or `*slot = Some(operation)` found"
+    cands = []  # (block, slot term)
     for bb, t in go.live_calls(r"Option::<T>::(replace|insert|get_or_insert)$"):
-        if len(t["args"]) < 2:
-            continue
-        src = _raw_place(go, t["args"][1])
+        if len(t["args"]) >= 2:
+            src = _raw_place(go, t["args"][1])
+            if src and src["l"] == L and not src["p"]:
+                cands.append((bb, q.ev_op(fr, t["args"][0])))
+    for bb, i, st in go.aggregates(r"option::Option$", "Some"):
+        src = _raw_place(go, st["rv"]["ops"][0]) if st["rv"]["ops"] else None
         if not (src and src["l"] == L and not src["p"]):
             continue
-        slot = q.ev_op(fr, t["args"][0])
+        dst = st["pl"]
+        if not dst["p"]:  # a temporary: where is it moved to?
+            for ubb, uk, un in go.uses_of_local(dst["l"]):
+                if uk == "assign" and un["rv"]["rv"] == "use" and un["pl"]["p"]:
+                    dst = un["pl"]
+                    bb = ubb
+        if dst["p"] and dst["p"][0] == "*":
+            cands.append((bb, q.ev_local(fr, dst["l"])))
+    for bb, slot in cands:
         by_method = slot[0] == "alt" and all(any(gt[0] == "call" and re.search(r"PartialEq::eq$", gt[1]) and any(x[0] == "field" and ep_root is not None and ep_root[0] == "field" and x != ep_root and Q.nosite(x[1]) == ep_root[1] for x in Q.walk(gt))
                                                   for gt, gv in g) for g, v in slot[1])
         stored = by_method and go.dominates(obb, bb)
@@ -877,22 +993,30 @@ def r7_versions(ctx):
     R = ctx.rule("C19.R7", "version-range syntax -> range kind: `..`=All, `..b`=Until(b), `a..`=From(a), `a..b`=FromUntil(a,b) with operands in source order; literal pairs are refused iff until < earliest; "
                  "each kind emits the same-named ApiEndpointVersions constructor (from_until(earliest, until).unwrap() for FromUntil) with literals as semver::Version::new(major, minor, patch)", floor=14)
     ep, ds = ctx.ep, ctx.ds
-    prod, T = _producer_template(ctx, R)
+    prod, T, P = _producer_template(ctx, R)
+    S = _leafname(P["self"])
     kinds = [v["name"] for v in ep.adts["metadata::VersionRange"]["variants"]] if "metadata::VersionRange" in ep.adts else []
     dkinds = [v["name"] for v in ds.adts["api_description::ApiEndpointVersions"]["variants"]] if "api_description::ApiEndpointVersions" in ds.adts else []
     ctx.check(R, "kinds", sorted(kinds) == ["All", "From", "FromUntil", "Until"] and sorted(dkinds) == sorted(kinds), "macro kinds %s, dropshot kinds %s" % (kinds, dkinds), prod, nontrivial=False)
-    arms = _ctor_arms(T) or {}
+    arms = _ctor_arms(T, P) or {}
     valt = None
     for arm, toks in sorted(arms.items()):
         if toks and toks[-1][0] == "grp":
             for a in Q.split_commas(toks[-1][2]):
-                if len(a) == 1 and a[0][0] == "alt" and all(len(g) == 1 and Q.leaves(g[0][0]) == {"self.versions"} for g, _ in a[0][1]):
+                if len(a) == 1 and a[0][0] == "alt" and all(len(g) == 1 and Q.leaves(g[0][0]) == {S + ".versions"} for g, _ in a[0][1]):
                     valt = a[0]
     if valt is None:
         ctx.lost(R, "the versions alternative in the emitted constructor call")
         return
     fu = ctx.need_fn(ds, R, r"^api_description::ApiEndpointVersions::from_until$")
-    fu_params = [fu.local_name(i) for i in range(1, fu.argc + 1)]
+    # which parameter of from_until is the earliest / the until bound: read off the ordered pair it builds
+    fu_params = ["?"] * fu.argc
+    qd = _q(ctx, "ds", inline=False)
+    for pbb, pi, pst in fu.aggregates(r"^api_description::OrderedVersionPair$"):
+        for n, o in zip(pst["rv"]["fields"], pst["rv"]["ops"]):
+            t = Q.strip_plumb(qd.ev_op(Q.Frame(fu), o))
+            if t[0] == "param" and 1 <= t[1] <= fu.argc:
+                fu_params[t[1] - 1] = n
     by = {g[0][1]: toks for g, toks in valt[1]}
     ctx.check(R, "emit:one-arm-per-kind", sorted(by) == sorted(kinds), "arms: %s" % sorted(by), prod)
 
@@ -900,7 +1024,7 @@ def r7_versions(ctx):
         """tok is the semver_expr alternative for field idx of VersionRange::kind."""
         if tok[0] != "alt":
             return False, "not a Literal/Identifier alternative"
-        base = ("field", ("as", ("field", ("param", 1, "self"), "versions"), kind), idx)
+        base = ("field", ("as", ("field", P["self"], "versions"), kind), idx)
         seen = {}
         for g, toks in tok[1]:
             if len(g) != 1 or Q.nosite(g[0][0]) != base:
@@ -917,7 +1041,7 @@ def r7_versions(ctx):
         idt = seen["Identifier"]
         ok2 = len(idt) == 1 and idt[0][0] == "hole" and Q.nosite(idt[0][1]) == ("field", ("as", base, "Identifier"), 0)
         return ok and ok2, "Literal -> %s ; Identifier -> %s" % (cap(Q.show_toks(lit), 120), cap(Q.show_toks(idt), 80))
-    head = lambda toks, name: Q.sig(toks)[:5] == ["<>", "::", "ApiEndpointVersions", "::", name] and toks[0][1] == ("param", 2, "dropshot")
+    head = lambda toks, name: Q.sig(toks)[:5] == ["<>", "::", "ApiEndpointVersions", "::", name] and toks[0][1] == P["dropshot"]
     if "All" in by:
         ctx.check(R, "emit:All", head(by["All"], "All") and len(by["All"]) == 5, cap(Q.show_toks(by["All"])), prod)
     for k in ("From", "Until"):
@@ -1059,10 +1183,11 @@ def r8_doc_lines(ctx):
     s1, s2 = streams(sm), streams(de)
     ctx.check(R, "doc:one-line-stream", len(s1) == 1 and s1 == s2 and Q.leaves(sm) == {"attrs"} and Q.leaves(de) == {"attrs"},
               "summary and description both read the single line stream built from `attrs`: %s" % (len(s1) == 1 and s1 == s2), (f, bb))
-    bad = _only(sm, PLUMB + [r"Iterator::flat_map$", r"Iterator::next$"], )
+    cap_ok = [r"^proc_macro2::Ident::new$", r"^proc_macro2::Span::call_site$"]  # the `doc` identifier captured by the line closure
+    bad = _only(sm, PLUMB + cap_ok + [r"Iterator::flat_map$", r"Iterator::next$"])
     ctx.check(R, "doc:summary-is-a-whole-line", not bad and any(re.search(r"Iterator::next$", c) for c in Q.callees(sm)), "summary = %s%s" % (cap(Q.show(sm)), (" ; unexpected: %s" % bad) if bad else ""), (f, bb))
     folds = [x for x in Q.walk(de) if x[0] == "call" and re.search(r"Iterator::fold$", x[1])]
-    badd = _only(de, PLUMB + [r"Iterator::flat_map$", r"Iterator::next$", r"Iterator::fold$", r"str::<impl str>::trim_end$", r"ToString::to_string$"])
+    badd = _only(de, PLUMB + cap_ok + [r"Iterator::flat_map$", r"Iterator::next$", r"Iterator::fold$", r"str::<impl str>::trim_end$", r"ToString::to_string$"])
     okf = len(folds) == 1 and len(folds[0][2]) == 3 and streams(folds[0][2][0]) == s1 and not badd
     ctx.check(R, "doc:description-folds-the-remaining-lines", okf, "description = %s%s" % (cap(Q.show(de)), (" ; unexpected: %s" % badd) if badd else ""), (f, bb))
     if len(folds) == 1 and len(folds[0][2]) == 3 and folds[0][2][2][0] == "closure" and folds[0][2][2][1] in ep.F:
@@ -1164,7 +1289,14 @@ SELFTEST = [
     {"name": "channel-name-from-adapter", "kind": "mutant", "expect": ["C19.R1"],
      "edits": [("dropshot_endpoint/src/channel.rs", "                metadata.to_api_endpoint_fn(\n                    &dropshot,\n                    &name_str,", "                metadata.to_api_endpoint_fn(\n                    &dropshot,\n                    &params.adapter_name.to_string(),")],
      "why": "† a function-form channel's default operation id becomes the generated adapter's name, unlike the trait form"},
+    {"name": "doc-fold-drops-line", "kind": "mutant", "expect": ["C19.R8"],
+     "edits": [("dropshot_endpoint/src/doc.rs", "                        format!(\"{} {}\", acc, comment)", "                        format!(\"{} \", acc)")],
+     "why": "† every ordinary continuation line of a doc comment is dropped from the description"},
     # ---------------------------------------------------------------- benign variants
+    {"name": "doc-fold-renamed", "kind": "benign",
+     "edits": [("dropshot_endpoint/src/doc.rs", "                .fold(first, |acc, comment| {\n                    if acc.ends_with('-')\n                        || acc.ends_with('\\n')\n                        || acc.is_empty()\n                    {\n                        // Continuation lines and newlines.\n                        format!(\"{}{}\", acc, comment)",
+                "                .fold(first, |acc, comment| {\n                    if acc.is_empty()\n                        || acc.ends_with('\\n')\n                        || acc.ends_with('-')\n                    {\n                        format!(\"{acc}{comment}\")")],
+     "why": "behaviour-preserving: the or-ed conditions reordered and inline format arguments used"},
     {"name": "rename-locals", "kind": "benign",
      "edits": [(_M, "        let visible = self.unpublished.then(|| {", "        let hide_tokens = self.unpublished.then(|| {"), (_M, "            #visible\n", "            #hide_tokens\n")],
      "why": "behaviour-preserving: a local is renamed"},
@@ -1206,4 +1338,15 @@ SELFTEST = [
      "edits": [(_A, "        match mime_type {\n            CONTENT_TYPE_OCTET_STREAM => Ok(Self::Bytes),\n            CONTENT_TYPE_JSON => Ok(Self::Json),\n            CONTENT_TYPE_URL_ENCODED => Ok(Self::UrlEncoded),\n            CONTENT_TYPE_MULTIPART_FORM_DATA => Ok(Self::MultipartFormData),\n            _ => Err(mime_type.to_string()),\n        }",
                 "        if mime_type == CONTENT_TYPE_OCTET_STREAM {\n            Ok(Self::Bytes)\n        } else if mime_type == CONTENT_TYPE_JSON {\n            Ok(Self::Json)\n        } else if mime_type == CONTENT_TYPE_URL_ENCODED {\n            Ok(Self::UrlEncoded)\n        } else if mime_type == CONTENT_TYPE_MULTIPART_FORM_DATA {\n            Ok(Self::MultipartFormData)\n        } else {\n            Err(mime_type.to_string())\n        }")],
      "why": "behaviour-preserving: match on string constants written as an if/else-if chain"},
+    {"name": "rename-producer-and-ctor-params", "kind": "benign",
+     "edits": [(_M, "        dropshot: &TokenStream,\n        endpoint_name: &str,\n        kind: &ApiEndpointKind<'_>,\n        doc: &ExtractedDoc,\n    ) -> TokenStream {\n        let path = &self.path;",
+                "        dropshot: &TokenStream,\n        fn_name: &str,\n        which: &ApiEndpointKind<'_>,\n        docs: &ExtractedDoc,\n    ) -> TokenStream {\n        let (endpoint_name, kind, doc) = (fn_name, which, docs);\n        let path = &self.path;"),
+               (_A, "    pub fn new_for_types<FuncParams, ResultType>(\n        operation_id: String,\n        method: Method,\n        content_type: &'a str,",
+                "    pub fn new_for_types<FuncParams, ResultType>(\n        operation_id: String,\n        method: Method,\n        mime: &'a str,"),
+               (_A, "        let body_content_type =\n            ApiEndpointBodyContentType::from_mime_type(content_type)\n                .expect(\"unsupported mime type\");\n        let func_parameters = FuncParams::metadata(body_content_type.clone());\n        let response = <ResultType::Response>::response_metadata();",
+                "        let content_type = mime;\n        let body_content_type =\n            ApiEndpointBodyContentType::from_mime_type(content_type)\n                .expect(\"unsupported mime type\");\n        let func_parameters = FuncParams::metadata(body_content_type.clone());\n        let response = <ResultType::Response>::response_metadata();")],
+     "why": "behaviour-preserving: parameters of the producer and of new_for_types renamed"},
+    {"name": "document-slot-assigned", "kind": "benign",
+     "edits": [(_A, "            method_ref.replace(operation);", "            *method_ref = Some(operation);")],
+     "why": "behaviour-preserving: Option::replace written as an assignment of Some(..)"},
 ]
